@@ -403,6 +403,8 @@ class Executor(object):
         path = location
         if not path or path == ".":
             path = os.getcwd()
+        else:
+            path = os.path.expanduser(path)
 
         script = build_command.command
 
